@@ -246,8 +246,14 @@ def run(tier):
                                         % ("grows with the input" if grows else "exceeds the cursor's poll interval %d" % interval, name)},
                              "unbounded_gap_%s" % name)
     if interval == 0:
-        rp.violation({"kind": "correspondence", "broken": "the parser no longer declares contextPollInterval: the cursor poll schedule of Model/Ctx.adv (C11_cursor_cancel_prompt) is not tied to the code",
-                      "largest_poll_free_run": rp.cov["largest_poll_free_run"]}, "poll_interval_missing", no_input=True)
+        # no recognisable interval constant (renamed / computed): the model's theorem C11_cursor_cancel_prompt holds for every
+        # interval, so what must be tied is only that SOME bound exists: the poll-free run of the wide families must not grow
+        # with the input (judged above) and stay small
+        bounded = worst is not None and worst[0] <= 1024 and not any("unbounded_gap" in v for v in rp.violations)
+        rp.cov["notes"].append("no poll-interval constant recognised in the parser source; measured bound on the poll-free run: %s tokens" % (worst[0] if worst else None))
+        if not bounded:
+            rp.violation({"kind": "correspondence", "broken": "no poll interval is recognisable in the parser source and the measured poll-free run is not bounded: the cursor poll schedule of Model/Ctx.adv (C11_cursor_cancel_prompt) is not tied to the code",
+                          "largest_poll_free_run": rp.cov["largest_poll_free_run"]}, "poll_interval_missing", no_input=True)
     elif worst and worst[0] > interval and not any("unbounded_gap" in v for v in rp.violations):
         rp.violation({"kind": "oracle", "oracle": "not_prompt", "sql": srcs[worst[1]]["sql"][:3000], "input_id": worst[1], "largest_poll_free_run": worst[0], "poll_interval": interval,
                       "detail": "the parser consumed %d tokens without polling the context; the cursor is modelled (and documented) to poll every %d tokens" % (worst[0], interval)}, "poll_free_run_beyond_interval")
